@@ -23,7 +23,9 @@ def rand_attrs(rng, version, name=None):
         pool += [("external", "flag_present", None), ("declaration", "flag_present", None), ("high_pc", "data4", rng.randint(0, 1000)),
                  ("stmt_list", "sec_offset", 0)]
     if version >= 5:
-        pool += [("decl_line", "implicit_const", rng.randint(0, 300)), ("byte_size", "data16", bytes(range(16)))]
+        pool += [("decl_line", "implicit_const", rng.randint(0, 300)), ("byte_size", "data16", bytes(range(16))),
+                 ("decl_line", "implicit_const", 0), ("decl_column", "implicit_const", rng.choice([0, 1, 127, 128, 300])),
+                 ("const_value", "implicit_const", rng.choice([0, -1, 63, 64, -64, -65, 300, -300])), ("bit_size", "implicit_const", rng.randint(0, 70))]
     used = {"name"}
     for _ in range(rng.randint(0, 4)):
         a = rng.choice(pool)
